@@ -36,6 +36,8 @@ type World struct {
 	mu             sync.Mutex
 	importAlias    map[string]map[string]string // package path -> local import name -> imported path
 	freshCallee    map[*ssa.Function]bool
+	fieldFuncs     map[string]*ssa.Function
+	fieldFuncsBad  map[string]bool
 	sentinels      map[string]int // package-level error variables initialised with errors.New/fmt.Errorf-free constructors
 }
 
@@ -315,6 +317,11 @@ func (w *World) isLogName(name string) bool {
 		if c.Logged == name {
 			return true
 		}
+		for _, l := range c.LogParams {
+			if l == name {
+				return true
+			}
+		}
 	}
 	return false
 }
@@ -359,6 +366,41 @@ func (w *World) sigOfContract(c *Contract) (*types.Signature, types.Type) {
 }
 
 func (w *World) logElemType(log, comp string) types.Type {
+	for _, c := range w.ct.Funcs {
+		for pname, l := range c.LogParams {
+			if l != log {
+				continue
+			}
+			fn := w.funcs[c.Key]
+			if fn == nil {
+				return nil
+			}
+			for _, p := range fn.Params {
+				if p.Name() != pname {
+					continue
+				}
+				sig, ok := p.Type().Underlying().(*types.Signature)
+				if !ok {
+					return nil
+				}
+				if strings.HasPrefix(comp, "arg") {
+					k, err := strconv.Atoi(strings.TrimPrefix(comp, "arg"))
+					if err != nil || k >= sig.Params().Len() {
+						return nil
+					}
+					return sig.Params().At(k).Type()
+				}
+				if strings.HasPrefix(comp, "ret") {
+					k, err := strconv.Atoi(strings.TrimPrefix(comp, "ret"))
+					if err != nil || k >= sig.Results().Len() {
+						return nil
+					}
+					return sig.Results().At(k).Type()
+				}
+			}
+			return nil
+		}
+	}
 	for _, c := range w.ct.Funcs {
 		if c.Logged != log {
 			continue
@@ -714,4 +756,123 @@ func (w *World) sentinelOrd(name string) (int, bool) {
 		return 0, false
 	}
 	return o, true
+}
+
+// fieldFuncCandidate: for a callee value that is a load of field f of an in-repo struct T
+// (f unexported), returns the single closure function whose closures are the only values ever
+// stored into T.f anywhere in the program; nil if unknown or not unique.
+func (w *World) fieldFuncCandidate(v ssa.Value) *ssa.Function {
+	ld, ok := v.(*ssa.UnOp)
+	if !ok || ld.Op != token.MUL {
+		return nil
+	}
+	fa, ok := ld.X.(*ssa.FieldAddr)
+	if !ok {
+		return nil
+	}
+	pt, ok := fa.X.Type().Underlying().(*types.Pointer)
+	if !ok {
+		return nil
+	}
+	st, ok := pt.Elem().Underlying().(*types.Struct)
+	if !ok {
+		return nil
+	}
+	fname := st.Field(fa.Field).Name()
+	key := typeKey(pt.Elem()) + "." + fname
+	if !strings.HasPrefix(key, modulePath) || (fname[0] >= 'A' && fname[0] <= 'Z') {
+		return nil
+	}
+	w.mu.Lock()
+	defer w.mu.Unlock()
+	if w.fieldFuncs == nil {
+		w.fieldFuncs = map[string]*ssa.Function{}
+		w.fieldFuncsBad = map[string]bool{}
+		var cands func(v ssa.Value, depth int) ([]*ssa.Function, bool)
+		cands = func(v ssa.Value, depth int) ([]*ssa.Function, bool) {
+			if depth > 4 {
+				return nil, false
+			}
+			switch x := v.(type) {
+			case *ssa.MakeClosure:
+				return []*ssa.Function{x.Fn.(*ssa.Function)}, true
+			case *ssa.Function:
+				return []*ssa.Function{x}, true
+			case *ssa.Const:
+				if x.Value == nil {
+					return nil, true // nil function value
+				}
+			case *ssa.Call:
+				if g, ok := x.Call.Value.(*ssa.Function); ok && g.Blocks != nil {
+					var out []*ssa.Function
+					for _, b := range g.Blocks {
+						for _, in := range b.Instrs {
+							if r, ok := in.(*ssa.Return); ok && len(r.Results) == 1 {
+								c, ok := cands(r.Results[0], depth+1)
+								if !ok {
+									return nil, false
+								}
+								out = append(out, c...)
+							}
+						}
+					}
+					return out, true
+				}
+			case *ssa.Phi:
+				var out []*ssa.Function
+				for _, e := range x.Edges {
+					c, ok := cands(e, depth+1)
+					if !ok {
+						return nil, false
+					}
+					out = append(out, c...)
+				}
+				return out, true
+			case *ssa.ChangeType:
+				return cands(x.X, depth+1)
+			}
+			return nil, false
+		}
+		note := func(k string, v ssa.Value) {
+			c, ok := cands(v, 0)
+			if !ok {
+				w.fieldFuncsBad[k] = true
+				return
+			}
+			for _, f := range c {
+				if old, has := w.fieldFuncs[k]; has && old != f {
+					w.fieldFuncsBad[k] = true
+				}
+				w.fieldFuncs[k] = f
+			}
+		}
+		for fn := range w.allFuncs {
+			if !strings.HasPrefix(fnPkgPath(fn), modulePath) {
+				continue
+			}
+			for _, b := range fn.Blocks {
+				for _, in := range b.Instrs {
+					s, ok := in.(*ssa.Store)
+					if !ok {
+						continue
+					}
+					if _, isFn := s.Val.Type().Underlying().(*types.Signature); !isFn {
+						// whole-struct copies move function values between instances of the same struct
+						// type; they introduce no value that was not stored through a field store
+						continue
+					}
+					f2, ok := s.Addr.(*ssa.FieldAddr)
+					if !ok {
+						continue
+					}
+					p2 := f2.X.Type().Underlying().(*types.Pointer).Elem()
+					note(typeKey(p2)+"."+p2.Underlying().(*types.Struct).Field(f2.Field).Name(), s.Val)
+				}
+			}
+		}
+	}
+	if w.fieldFuncsBad[key] {
+		return nil
+	}
+	return w.fieldFuncs[key]
 }
